@@ -114,7 +114,8 @@ def run(ctx):
              "content) under 10 concrete key schemes x variants, + seeded random histories over mixed-type keys; "
              "race rounds: fresh sharded container (1..3 shards, 6 variants), 2..4 goroutines released by a spin "
              "barrier, 1..3 calls each on 2..4 distinct keys, kept only if calls overlapped, closed by a sequential "
-             "Get+Exist probe of every key; configurations: no option (73), 1, 2, 3 .. 100003 shards, LRU capacity "
+             "Get+Exist probe of every key; value kinds: int, string, struct, pointer, slice, map, func, nil, "
+             "struct-with-slice (LRUs: five types with Size()), one kind per history or mixed; configurations: no option (73), 1, 2, 3 .. 100003 shards, LRU capacity "
              "far / 0 / 1 / n-1 / n / MaxInt64-1 / MaxInt64; pressure: 4 wide LRUs x 1..3 shards x capacity 0..3n+2, "
              "(capacity/n+3) keys per shard; cold-start routing: fresh ReMap x 2..4 goroutines x 5..10 questions",
         explanation="ShardAlg.tla (NewReMap table, sort.Search bisection, clamp, modulo) model-checked for all "
